@@ -23,10 +23,10 @@ PROBES = {
     "C08": ["call:accept-first", "call:reject-then-accept", "call:exhausted", "call:raise-first-trial",
             "call:raise-after-reject", "call:zero-step", "reject=0", "strategy:Constant", "strategy:Adaptive",
             "strategy:TrustRegion", "damping:clamped-min", "damping:clamped-max", "trust:down-shrunk",
-            "trust:down-reset", "GN", "group-param", "float32", "scripted", "ctor-defaults", "zero-residual-start", "input-form:dict", "input-form:list", "input-form:single"],
+            "trust:down-reset", "GN", "group-param", "float32", "scripted", "ctor-defaults", "zero-residual-start", "kernel-list-with-None", "trial-loss=+inf", "strategy-reused-by-new-optimizer", "input-form:dict", "input-form:list", "input-form:single"],
     "C07": ["lm:first-trial", "lm:trial>=2", "gn", "weights:RR", "weights:NRR", "weights:full", "weights:refreshed-in-place", "weights:per-call-alternating", "kernel", "triggs",
             "clamp-min-bites", "clamp-max-bites", "frozen-param", "group-param", "vectorize-off", "two-residuals",
-            "unused-columns", "ctor-defaults", "input-form:dict", "input-form:list", "input-form:single"],
+            "unused-columns", "ctor-defaults", "kernel-list-with-None", "input-form:dict", "input-form:list", "input-form:single"],
 }
 TS = float(os.environ.get("PPSIM_TOLSCALE", "1"))
 EXC = {"RuntimeError": RuntimeError, "ValueError": ValueError, "AssertionError": AssertionError,
@@ -60,18 +60,22 @@ def generate(seed, tier, prop="C08"):
     if not scripted and r.random() < (0.5 if prop == "C07" else 0.3):
         kern = [{"name": r.choice(sorted(KERNELS)), "delta": r.choice([0.1, 0.5, 1.0, 2.0])}
                 for _ in range(nres if r.random() < 0.5 else 1)]
+    if kern and len(kern) > 1 and r.random() < 0.4:
+        kern[r.randrange(len(kern))] = None         # a list mixing a real kernel with None (documented)
     corr = r.choice(["auto", "auto", "FastTriggs", "Triggs"]) if kern else "none"
-    if corr == "Triggs" and any(k["name"] == "Scale" for k in kern):
+    if kern and any(k is None for k in kern):
+        corr = "auto"
+    if corr == "Triggs" and any(k is not None and k["name"] == "Scale" for k in kern):
         corr = "FastTriggs"     # Triggs cannot differentiate a kernel with constant slope (corrector defect, C09 territory)
     cfg = {"opt": opt, "strategy": st, "reject": r.choice([0, 1, 2, 3, 5, 16]),
            "min": r.choice([1e-6, 1e-6, 1e-3, 0.5, 5.0]) if prop == "C07" else 1e-6,
            "max": r.choice([1e32, 1e32, 2.0, 50.0]) if prop == "C07" else 1e32,
-           "solver": r.choice(["Cholesky", "PINV", "LSTSQ"]) if opt == "LM" else r.choice(["PINV", "LSTSQ"]),
+           "solver": r.choice(["Cholesky", "Cholesky-upper", "PINV", "LSTSQ"]) if opt == "LM" else r.choice(["PINV", "LSTSQ"]),
            "kernel": kern, "corrector": corr,
            "weights": r.choice(["none", "RR", "NRR", "full"]) if (prop == "C07" and not scripted) else
                       r.choice(["none", "none", "RR"]) if not scripted else "none",
            "weight_at": r.choice(["ctor", "step", "alternate"]), "reweight": r.random() < 0.3, "vectorize": r.random() < 0.8,
-           "input_form": r.choice(["tuple", "tuple", "list", "dict", "single"]), "ctor_defaults": r.random() < 0.2,
+           "input_form": r.choice(["tuple", "tuple", "list", "dict", "single"]), "ctor_defaults": r.random() < 0.2, "rebuild": r.random() < 0.15,
            "dtype": "f64" if (prop == "C07" or r.random() < 0.6) else "f32",
            "target": (not scripted) and r.random() < 0.3, "spec": spec}
     if cfg["max"] < cfg["min"]:
@@ -84,7 +88,7 @@ def generate(seed, tier, prop="C08"):
     faults = []
     mode = rf.choice(["none", "none", "sparse", "sparse", "dense", "burst", "whole-call"]) if opt == "LM" else \
         rf.choice(["none", "sparse"])
-    kinds = ["raise", "negate", "overshoot", "zero", "noise"] if opt == "LM" else ["overshoot", "negate", "noise"]
+    kinds = ["raise", "negate", "overshoot", "zero", "noise", "huge"] if opt == "LM" else ["overshoot", "negate", "noise"]
     enabled = [k for k in kinds if rf.random() < 0.6] or [rf.choice(kinds)]
 
     def mk(kind):
@@ -97,6 +101,8 @@ def generate(seed, tier, prop="C08"):
             f["c"] = round(rf.uniform(0.5, 4), 3)
         elif kind == "noise":
             f["c"] = round(rf.uniform(0.1, 3), 3)
+        elif kind == "huge":
+            f["c"] = rf.choice([1e40, 1e80, 1e150])
         return f
     horizon = n_calls * 3
     if mode == "sparse":
@@ -229,6 +235,8 @@ class SolverProxy(torch.nn.Module):
             D = f["c"] * D; self.out.fault("solver-overshoot")
         elif kind == "zero":
             D = torch.zeros_like(D); self.out.fault("solver-zero")
+        elif kind == "huge":
+            D = f["c"] * D; self.out.fault("solver-huge")        # a step whose trial loss overflows to +inf
         elif kind == "noise":
             nz = rng.randn(self.seed, ("noise", j), tuple(D.shape), D.dtype)
             D = D + f["c"] * nz * (D.abs().max() + 1e-3); self.out.fault("solver-noise")
@@ -366,14 +374,17 @@ def execute(plan, prop, out, tr):
     weight = _weights(s, c["weights"], outs0, dtype)
     kern = None
     if c["kernel"]:
-        ks = [KERNELS[k["name"]](k["delta"]) for k in c["kernel"]]
+        ks = [KERNELS[k["name"]](k["delta"]) if k is not None else None for k in c["kernel"]]
+        if any(k is None for k in ks):
+            out.probe("kernel-list-with-None")
         kern = ks if len(ks) > 1 else ks[0]
     corr = None
     if c["corrector"] in ("FastTriggs", "Triggs") and c["kernel"]:
         cls = pp.optim.corrector.FastTriggs if c["corrector"] == "FastTriggs" else pp.optim.corrector.Triggs
-        cs = [cls(k) for k in (kern if isinstance(kern, list) else [kern])]
+        cs = [cls(k) if k is not None else None for k in (kern if isinstance(kern, list) else [kern])]
         corr = cs if len(cs) > 1 else cs[0]
-    inner = {"Cholesky": pp.optim.solver.Cholesky, "PINV": pp.optim.solver.PINV, "LSTSQ": pp.optim.solver.LSTSQ}[c["solver"]]()
+    inner = {"Cholesky": pp.optim.solver.Cholesky, "Cholesky-upper": lambda: pp.optim.solver.Cholesky(upper=True),
+             "PINV": pp.optim.solver.PINV, "LSTSQ": pp.optim.solver.LSTSQ}[c["solver"]]()
     solver = SolverProxy(inner, model, plan["faults"], out, s, scripted)
     st = c["strategy"]
     strat = None
@@ -463,8 +474,16 @@ def execute(plan, prop, out, tr):
     tight = 1e2 * eps * TS
     prev_sig = "start"
     prev_bitwise, prev_ret = True, None
+    rebuilt = False
     for o in plan["ops"]:
         ci = o["id"]
+        if (c.get("rebuild") and not rebuilt and c["opt"] == "LM" and not c.get("ctor_defaults") and strat is not None
+                and ci >= max(1, len(plan["ops"]) // 2)):
+            # a fresh optimizer for the same model, built with the SAME strategy object the first one used
+            opt = pp.optim.LM(model, solver=solver, strategy=strat, kernel=kern, corrector=corr, weight=ctor_w,
+                              reject=c["reject"], min=c["min"], max=c["max"], vectorize=c["vectorize"])
+            rebuilt = True; prev_bitwise, prev_ret = True, None
+            out.probe("strategy-reused-by-new-optimizer")
         if weight is not None and c.get("reweight") and ci > 0:
             # the caller refreshes the weight buffer in place between steps (same storage, new values)
             for wt in (weight if isinstance(weight, (list, tuple)) else [weight]):
@@ -513,9 +532,12 @@ def execute(plan, prop, out, tr):
         n_solves = len(srec)
         out.sim_time += n_solves; out.ops += 1
         tr.ev("call", ci, ret_f, n_solves, [t.clone() for t in p_e], pg.get("damping"))
-        if not math.isfinite(L_e) or not math.isfinite(ret_f):
+        if math.isnan(L_e) or math.isnan(ret_f) or L_e == -math.inf or ret_f == -math.inf:
             out.declined("loss-nonfinite"); break
-        scaleL = 1 + abs(L_s) + abs(L_e)
+        inf_end = (L_e == math.inf or ret_f == math.inf)      # +inf is simply 'worse than anything': still judged
+        if inf_end and prop != "C08":
+            out.declined("loss-nonfinite"); break
+        scaleL = 1 + abs(L_s) + (abs(L_e) if math.isfinite(L_e) else 0.0)
         # =============================== C08 ===============================
         if prop == "C08":
             # after a call that ended in a solver failure following rejections, the parameters equal those of the
@@ -559,9 +581,14 @@ def execute(plan, prop, out, tr):
                     continue
                 tk = trec[len([x for x in srec[:k] if not x.get("raised")])]
                 L_k = hloss(tk["trial"])
-                if not math.isfinite(L_k):
+                if math.isnan(L_k) or L_k == -math.inf:
                     out.declined("trial-loss-nonfinite"); pattern.append("nan"); break
-                if abs(float(tk["loss"]) - L_k) > tight * (1 + abs(L_k)):
+                if L_k == math.inf:
+                    out.probe("trial-loss=+inf")
+                    if float(tk["loss"]) != math.inf:
+                        raise Violation("C08.trial-loss", "call %d trial %d: the trial parameters have loss +inf, the strategy was "
+                                        "told %r" % (ci, k, float(tk["loss"])), ci, "trial-loss:inf")
+                if L_k != math.inf and abs(float(tk["loss"]) - L_k) > tight * (1 + abs(L_k)):
                     raise Violation("C08.trial-loss", "call %d trial %d: strategy was told loss %.12g, the trial "
                                     "parameters have loss %.12g" % (ci, k, float(tk["loss"]), L_k), ci, "trial-loss")
                 if abs(float(tk["last"]) - L_s) > tight * scaleL:
@@ -590,7 +617,7 @@ def execute(plan, prop, out, tr):
                         if not torch.equal(a_, b_):
                             raise Violation("C08.kept", "call %d: parameters after the call differ from the last "
                                             "trial's parameters although no rejection followed" % ci, ci, "kept")
-                    if abs(ret_f - L_k) > tight * (1 + abs(L_k)):
+                    if (L_k == math.inf) != (ret_f == math.inf) or (L_k != math.inf and abs(ret_f - L_k) > tight * (1 + abs(L_k))):
                         raise Violation("C08.ret", "call %d: returned %.12g, loss at the parameters left behind %.12g"
                                         % (ci, ret_f, L_k), ci, "ret")
                     exhausted = (n_rej >= c["reject"])
@@ -613,6 +640,8 @@ def execute(plan, prop, out, tr):
                 break
             prev_bitwise = (prev_bitwise and n_rej == 0) if ended_by_raise else True
             prev_ret = ret_f
+            if inf_end:
+                break           # an exhausted call may legitimately end at +inf; nothing further to learn from this run
             if int(opt.reject_count) != n_rej:
                 raise Violation("C08.reject-count", "call %d: optimizer.reject_count=%d, rejections observed at the "
                                 "solver seam: %d" % (ci, int(opt.reject_count), n_rej), ci, "reject-count")
@@ -651,6 +680,8 @@ def _damping_oracle(c, st, trec, pg, out, ci, L_s, dtype):
             continue
         J = t["J"].double().numpy(); D = t["D"].double().numpy().reshape(-1, 1); R = t["R"].double().numpy().reshape(-1, 1)
         num = float(t["last"]) - float(t["loss"])
+        if not math.isfinite(num):
+            out.declined("C08.damping(rho ill-defined)"); continue
         rr = float((R * R).sum())
         den = rr - float(((R + J @ D) ** 2).sum())                       # the documented, un-factored form
         den2 = -float(((J @ D).T @ (2 * R + J @ D)).squeeze())           # factored, float64
@@ -767,9 +798,22 @@ def _c07_call(c, model, kinds, data, targets, weight, opt, srec, trec, p_s, p_e,
     if not c["vectorize"]:
         out.probe("vectorize-off")
     # through the configured corrector objects (trusted components)
+    # which corrector belongs to which residual is decided here, from the configuration (kernel i -> its corrector,
+    # no kernel -> none); only the corrector classes themselves are trusted components
+    def ref_corrector(j):
+        ks_ = c["kernel"]
+        if not ks_:
+            return None
+        kd = ks_[j] if len(ks_) > 1 else ks_[0]
+        if kd is None:
+            return None
+        kobj = KERNELS[kd["name"]](kd["delta"])
+        return (pp.optim.corrector.Triggs if c["corrector"] == "Triggs" else pp.optim.corrector.FastTriggs)(kobj)
     Rc, Jc = [], []
     for j, (r_, J_) in enumerate(zip(R0, Js)):
-        cor = opt.corrector[0] if len(opt.corrector) == 1 else opt.corrector[j]
+        cor = ref_corrector(j)
+        if cor is None:
+            Rc.append(r_.double().numpy().reshape(-1)); Jc.append(np.array(J_, dtype=np.float64)); continue
         with torch.no_grad():
             rr, jj = cor(R=r_.clone(), J=torch.tensor(J_, dtype=r_.dtype))
         Rc.append(rr.double().numpy().reshape(-1)); Jc.append(jj.double().numpy().reshape(J_.shape))
